@@ -127,7 +127,10 @@ func genCase(r *Rng, o GenOpts, allowW bool) pcase {
 
 // --- registry configurations (C05): a random subset of registrable types is
 // registered for the duration of one case.
-var registrable = []reflect.Type{reflect.TypeOf(RegInt(0)), reflect.TypeOf(RegStruct{}), reflect.TypeOf(MyStr("")), reflect.TypeOf(strg{})}
+// the last two are pointer types: registering *T must declare *T safe and leave T alone (the model's
+// universe has no registered pointer types: configurations >= 16 are used by the real-code oracles only)
+var registrable = []reflect.Type{reflect.TypeOf(RegInt(0)), reflect.TypeOf(RegStruct{}), reflect.TypeOf(MyStr("")), reflect.TypeOf(strg{}),
+	reflect.TypeOf((*RegStruct)(nil)), reflect.TypeOf((*ptrStruct)(nil))}
 
 type regCfg uint
 
@@ -456,7 +459,7 @@ func streamEnvelopes(rep *Report, tier string, seed uint64) {
 			r := NewRng(seed*1000 + 404)
 			defer resetRegistry()
 			for i := 0; i < n; i++ {
-				cfg := regCfg(r.Intn(16))
+				cfg := regCfg(r.Intn(64))
 				cfg.apply()
 				k := leafKinds[r.Intn(len(leafKinds))]
 				v := &Val{K: k, ID: 2 * r.Intn(4), R: redactPool[r.Intn(len(redactPool))]}
